@@ -14,7 +14,7 @@ THEOREMS = [P + t for t in (
     "never_moves_outside", "stays_inside", "accept_rule", "counted_step_update", "H_sum", "flat_rule", "flat_only_at_schedule",
     "isFlat_iff", "stop_rule", "g_bookkeeping", "g_bookkeeping_flat", "bin_centres",
     # argmin |bincts - kappa| is the bin that contains kappa; an aligned request is tiled exactly (Props/C18Bin.lean)
-    "argmin_fold", "binOf_nearest", "binOf_contains", "binCandidates_centre", "wlConfig_aligned")]
+    "argmin_fold", "binOf_nearest", "binOf_contains", "binCandidates_centre", "wlConfig_aligned", "moved_implies_kappa_in_range")]
 RULE = ("each case = one short seeded Wang-Landau run (sequence 8..14 residues, 3..6 bins, range inside [0,1], flat-check period "
         "40..200, flatness criterion 1/8..1/2, convergence e^(1/8..1/2), capped at 1500 steps through the guarded hook; plus runs with the flat check 6000 steps away, capped at 2600 steps, whose g passes 710 where exp(g) overflows) with a recording "
         "RNG; the per-step trace written by the hook is checked (oracle 1, no model): every proposal is a rearrangement of the input whose "
